@@ -216,6 +216,13 @@ def gen_strings():
                 continue
             yield b's=' + q + bytes([b]) + q + b'\n'
             yield b's=' + q + bytes([b]) + b'1' + q
+    # every escape form followed by 2- and 3-character tails (a re-spelling that merges an escape with what follows
+    # needs more than one following character to show)
+    for q in (b'"', b"'"):
+        for e in escs:
+            for n in (2, 3):
+                for tail in itertools.product(b'0149ax', repeat=n):
+                    yield b's=' + q + e + bytes(tail) + q + b'\n'
     for lvl in range(4):
         eq = b'=' * lvl
         for body in (b'', b'x', b'\nx', b'\r\nx', b'x\ny', b']', b']]' if lvl else b']', b']' + b'=' * max(0, lvl - 1) + b']' if lvl else b'x',
